@@ -26,6 +26,7 @@ RULE = ("seeded datasets (x + 1-4 further dims of size 1-3, random dim order, Na
         "linestyle, row, col} incl. two properties on one dim, fused dims and explicit *_order x (coordinate or a data variable with holes of its own, linked by xlink) x join_across_missing x aggregate "
         "(median/mean/max; quantile/std/stderr ranges; band/bars) x histogram mode (bins None/int/edges, density/counts) x heat-map "
         "mode (palette on/off, aggregation, also a plain two-dimensional z(x, y)); aggregate figures against an x that is a data variable (xlink); dimension names of several characters; heat maps under a non-default rcParams pcolor.shading, line figures under a property cycle cycling line styles; numpy integers as the number of bins; distinct by (shape, mapping, options); non-trivial when >= 2 lines or a mesh is drawn")
+RULE += '; one line / histogram dataset in seven holds a slice whose non-missing values are all exactly zero (signed zeros)'
 ASSUMPTIONS = [
     "matplotlib backend (Agg); artists are inspected, pixels are not",
     "in heat-map mode without a palette the colours come from xyzpy's own to_colors (trusted); values are judged when a palette is given, "
